@@ -201,7 +201,7 @@ def run(v):
     v.cov["traces_validated_against_impl"] += rows[-1]["cases"]
     v.cov["evaluations"] += rows[-1]["cases"]
     # ---- R(ii): rustc decides ----
-    tg, gcases = c07.grammar_cases("C09")
+    tg, gcases = c07.grammar_cases("C09", v.tier)
     v.add_tlc("MC_Grammar", tg)
     mods = families(v, names_cases, gcases, quick)
     crate = os.path.join(vlib.OUT, "c09_crate")
